@@ -118,6 +118,17 @@ theorem FnChainOk.transfer {s s' : St} (hlin : ∃ t, s'.linear = t ++ s.linear)
     exact FnChainOk.step f p (Nat.lt_of_lt_of_le hlt hlen) (by rw [hfns f hlt]; exact hp)
       ⟨t0 ++ t, by rw [hfns f hlt, ht0, ht, List.append_assoc]⟩ ih
 
+/-- the chain only reads parents, closing lists, the table size and the linear stack -/
+theorem FnChainOk.congr {s s' : St} (hlin : s'.linear = s.linear) (hlen : s'.fns.length = s.fns.length)
+    (hpar : ∀ id, (fnOf s' id).parent = (fnOf s id).parent) (hclo : ∀ id, (fnOf s' id).closing = (fnOf s id).closing) :
+    ∀ {f}, FnChainOk s f → FnChainOk s' f := by
+  intro f h
+  induction h with
+  | root f hlt hp hs =>
+    exact FnChainOk.root f (by rw [hlen]; exact hlt) (by rw [hpar]; exact hp) (by rw [hlin, hclo]; exact hs)
+  | step f p hlt hp hs _ ih =>
+    exact FnChainOk.step f p (by rw [hlen]; exact hlt) (by rw [hpar]; exact hp) (by rw [hlin, hclo]; exact hs) ih
+
 theorem lookupUntilFn_suffix_none {s : St} (hnofn : ∀ i, (scopeOf s i).isFunction = false) (x : String) (cc : Bool)
     (l : List (Option Nat)) : ∀ (t : List (Option Nat)), lookupUntilFn s x cc (t ++ l) = none → lookupUntilFn s x cc l = none
   | [], h => h
